@@ -1,4 +1,7 @@
 -- This module serves as the root of the `Ccd` library.
 -- Import modules here that should be built as part of the library.
 import Ccd.Basic
+import Ccd.Small
 import Ccd.Proofs
+import Ccd.Lru
+import Ccd.SmallProofs
